@@ -99,3 +99,46 @@ rewrite (@det_coupling _ _ J (fun i => mask i)).
   + by case/orP: m => [->|/negbTE ->]; [left|right].
 Qed.
 End CPdet.
+
+Section BNdet.
+Variables (n : nat) (eps : R) (w b rvar rmean : list R).
+Hypothesis Hvar : forall i, (i < n)%coq_nat -> (0 < List.nth i rvar 0 + eps)%R.
+
+(* batch normalisation (evaluation mode): every Jacobian of apply_backward at x has determinant exp(ildj) *)
+Theorem bn_logdet (x : list R) (J : 'M[R]_n) : length x = n ->
+  (forall i j : 'I_n, is_derive (partial (bn_map n eps w b rvar rmean) x i j) (List.nth j x 0%R) (J i j)) ->
+  \det J = exp (snd (Rbn_bwd n eps w b rvar rmean x)).
+Proof.
+move=> Hx HJ.
+have lt i : (nat_of_ord (i : 'I_n) < n)%coq_nat by apply/ltP.
+rewrite (@det_elementwise _ _ J).
+- rewrite -(bn_diag_product n eps w b rvar rmean x) -prod_ord_fold.
+  apply: eq_bigr => i _; apply: (derive_unique2 (HJ i i)).
+  exact: (@bn_jacobian_diag n eps w b rvar rmean Hvar x i Hx (lt i)).
+- move=> i j ij; apply: (derive_unique2 (HJ i j)).
+  apply: (@bn_jacobian_offdiag n eps w b rvar rmean x i j Hx (lt i) (lt j)).
+  by move=> e; move: ij; rewrite (val_inj e) eqxx.
+Qed.
+End BNdet.
+
+Section LogitDet.
+Variables (n : nat) (a : R).
+Hypothesis Ha : (0 < a < 1 / 2)%R.
+
+(* logit preprocessing on data in the unit cube: every Jacobian of apply_backward at x has determinant exp(ildj) *)
+Theorem logit_logdet (x : list R) (J : 'M[R]_n) : length x = n ->
+  (forall i, (i < n)%coq_nat -> (0 <= List.nth i x 0 <= 1)%R) ->
+  (forall i j : 'I_n, is_derive (partial (logit_map n a) x i j) (List.nth j x 0%R) (J i j)) ->
+  \det J = exp (snd (Rlogit_bwd n a (Rlogit_ldjc n a) x)).
+Proof.
+move=> Hx Hr HJ.
+have lt i : (nat_of_ord (i : 'I_n) < n)%coq_nat by apply/ltP.
+rewrite (@det_elementwise _ _ J).
+- rewrite -(logit_diag_product n a x) -prod_ord_fold.
+  apply: eq_bigr => i _; apply: (derive_unique2 (HJ i i)).
+  exact: (@logit_jacobian_diag n a Ha x i Hx (lt i) (Hr i (lt i))).
+- move=> i j ij; apply: (derive_unique2 (HJ i j)).
+  apply: (@logit_jacobian_offdiag n a x i j Hx (lt i) (lt j)).
+  by move=> e; move: ij; rewrite (val_inj e) eqxx.
+Qed.
+End LogitDet.
